@@ -287,7 +287,7 @@ def race_check(out):
 
 
 RACES = {"2same": (2, ["", ""], False), "3same": (3, ["", "", ""], False), "2pre": (2, ["", ""], True),
-         "2mixed": (2, ["", "cust_"], False)}
+         "2mixed": (2, ["", "cust_"], False), "3pre": (3, ["", "", ""], True), "4same": (4, ["", "", "", ""], False)}
 
 
 def explore_race(name, bound):
@@ -623,9 +623,12 @@ def _reported(res):
 # ----------------------------------------------------------------------------- module interface
 
 def shards(tier, seed):
-    out = [{"part": "dirs", "depth": 4 if tier == "quick" else 5, "seed": seed}]
+    out = [{"part": "dirs", "depth": 4 if tier == "quick" else 6, "seed": seed}]
     for name in RACES:
-        out.append({"part": "race", "race": name, "bound": 2 if tier == "quick" else 4, "seed": seed})
+        if name == "4same" and tier == "quick":
+            continue
+        out.append({"part": "race", "race": name, "bound": 2 if tier == "quick" else (3 if name == "4same" else 8),
+                    "seed": seed})
     n = len(files_cases(tier))
     k = 24 if tier == "quick" else 48
     for i in range(k):
